@@ -10,19 +10,19 @@ HERE = os.path.dirname(os.path.dirname(os.path.abspath(__file__)))
 
 T = {
     "C01": dict(
-        technique="static analysis: provenance (must-tag) dataflow over CFGs + clamp recogniser + sibling cross-check",
+        technique="static analysis: provenance (must-tag) dataflow over CFGs + clamp recogniser + sibling cross-check + effect analysis (no in-place write through array parameters of helpers)",
         text="Decides, for every path, that each argument of the target, of the constraint callable and the stored result.x has passed the two-sided clamp to the original hard box (inverse transform), that point-valued slots only receive filtered/clamped rows, and that the two implementations of the inward-rounded search box agree. Floating-point rounding beyond the clamp and NaN are not decided.",
         note="Trusted: numpy min/max/clip semantics, CPython parser, finite-bounds validation (NaN excluded), effective bounds lie inside the hard bounds (shape checked, arithmetic trusted).",
         ref="4/C01",
     ),
     "C02": dict(
-        technique="static analysis: provenance dataflow for FEASIBLE tag, must-pass-through on the CFG, call-graph reachability",
+        technique="static analysis: provenance dataflow for FEASIBLE tag, must-pass-through on the CFG, call-graph reachability, identity check of the stored constraint callable",
         text="Decides that every argument of the target carries 'filtered with the user's constraint callable' provenance on all paths (filter summary: mask C<=0 on inverse(U) of the rows selected, last selection before return), that x0 is rejected before and after snapping on all paths, and that the constructor cannot reach the target. Purity of the user's constraint function is assumed.",
         note="Trusted: boolean row selection semantics; the constraint callable is deterministic.",
         ref="4/C02",
     ),
     "C03": dict(
-        technique="static analysis: who-may-call (call graph), CFG dominance/post-dominance of the counter increment, linear normal forms of loop guards",
+        technique="static analysis: who-may-call (call graph), CFG dominance/post-dominance of the counter increment, linear normal forms of loop guards, symbolic reserve arithmetic, CFG ordering of the reserve after noise detection",
         text="Decides the safety clauses: single target call site, func_count incremented exactly once after validation on every normal path and on no raising path, a budget exit (count >= max_fun_evals as a linear normal form) in every evaluating loop, reserve arithmetic for the final samples, progress counters, and agreement between each termination message and its guard. Liveness as a whole is not decided (necessary conditions only).",
         note="Trusted: implicit exceptions outside try bodies are not modelled; the user's target terminates.",
         ref="4/C03",
@@ -64,25 +64,25 @@ T = {
         ref="4/C10",
     ),
     "C11": dict(
-        technique="static analysis: term algebra (sympy normal forms) on the transform lambdas, clamp recogniser, mask complement check, form check of the masking helper",
+        technique="static analysis: term algebra (sympy normal forms) on the transform lambdas, clamp recogniser, mask complement check, form check of the masking helper, provenance of the returned internal boxes",
         text="Decides algebraic/structural clauses: both directions end in a two-sided clamp, ginv(g(x)) = x, g(plb) = -1, g(pub) = +1, positive slope, complementary masks shared by g and ginv, the log rule (all four bounds > 0 and pub/plb >= 10 on undetermined coordinates only), and that the masking helper selects by assignment (never v * mask, which is NaN for infinite entries). The 1e-9 accuracy is numeric and not decided.",
         note="Trusted: sympy simplification; exp/log are mutually inverse on positive reals.",
         ref="4/C11",
     ),
     "C12": dict(
-        technique="static analysis: rank abstract interpretation, parallel-array consistency, parameter-provenance dataflow, growth-idiom recognition (fill / copy bound / guard agreement relative to the increment order), effect sets, sympy term identity",
+        technique="static analysis: rank abstract interpretation, parallel-array consistency, parameter-provenance dataflow, growth-idiom recognition (fill / copy bound / guard agreement relative to the increment order), effect sets, sympy term identity, parameter roles read off the stores, integer-truncation lint on the merge",
         text="Decides the structure of the record routine on all paths: row index from a rank-1 mask, one index per path, parameters stored unchanged, growth covers exactly the per-row arrays, no-record path writes only counters/timing, merge is the precision-weighted mean, n_evals advances once per path.",
         note="Trusted: numpy argwhere/append semantics.",
         ref="4/C12",
     ),
     "C13": dict(
-        technique="static analysis: store-site enumeration with guard normal forms, ini-file constant reader, interprocedural must-dataflow (gen/kill method summaries, flag-conditional facts) for the coherence of the mesh-size slots with their exponents",
+        technique="static analysis: store-site enumeration with guard normal forms, ini-file constant reader, interprocedural must-dataflow (gen/kill method summaries, flag-conditional facts) for the coherence of the mesh-size slots with their exponents, sympy identity of the snapped mesh tolerance",
         text="Decides the complete set of stores to the poll mesh exponent (+1 capped on success, -1 otherwise, a further -1 under acceleration and stall, one option-gated site dead under shipped defaults), that mesh size is multiplier**exponent with constants from the ini files, that the search exponent is min(., m*k - n) hence <= m, the tol_mesh message guard, and that every read of a mesh-size slot sees multiplier ** exponent computed after the last store to the exponent on all paths.",
         note="Trusted: configparser reading of the two ini files as re-implemented by the ini reader.",
         ref="4/C13",
     ),
     "C14": dict(
-        technique="static analysis: finite-set abstract evaluation of the random draws, CFG post-dominance in the poll loop, term agreement of the scale round trip, mesh-size coherence dataflow in the poll step",
+        technique="static analysis: finite-set abstract evaluation of the random draws, CFG post-dominance in the poll loop, term agreement of the scale round trip, mesh-size coherence dataflow in the poll step, guard analysis of the filter's projection branch",
         text="Decides that the generator returns [M; -M] with M strictly triangular plus a non-zero diagonal followed only by rank-preserving operations, entries bounded by the mesh ratio, the poll scale divided out and multiplied back by the same expression, the polled row deleted and the counter advanced on every evaluating path, the loop bounded by 2*D, and the mesh sizes read by the poll step are current.",
         note="Trusted: randint(1,3) in {1,2}; tril/triu semantics; row permutation and transpose preserve rank.",
         ref="4/C14",
@@ -94,7 +94,7 @@ T = {
         ref="4/C15",
     ),
     "C16": dict(
-        technique="static analysis: handler analysis of every GP.fit call site, retry-loop bound, path-sensitive parallel-array consistency inside the retry, sibling agreement of fallback shapes, stored-noise consistency against gpyreg's fit contract",
+        technique="static analysis: handler analysis of every GP.fit call site, retry-loop bound, path-sensitive parallel-array consistency inside the retry, sibling agreement of fallback shapes, stored-noise consistency against gpyreg's fit contract, def-use closure of the thinning mask, completeness of re-bound training triples",
         text="Decides that every hyperparameter fit is inside a retry loop under a non-re-raising LinAlgError handler admitting at least five attempts, that X, Y and the noise vector passed to the next fit are filtered through the same mask (including the stored vector fit() falls back to when its argument is None), and that the posterior update has a fallback.",
         note="Ten consecutive failures (res unbound) are outside the property's quantifier and reported as a diagnostic.",
         ref="4/C16",
@@ -106,19 +106,19 @@ T = {
         ref="4/C17",
     ),
     "C18": dict(
-        technique="static analysis: min-selection idiom check, lock-step accumulation, CFG (one logger call outside loops), sympy affine form of the hedge probabilities, guard check of the hedge reward (def-use closure from GP predictions), mesh-size coherence dataflow for the search mesh",
+        technique="static analysis: min-selection idiom check, lock-step accumulation, CFG (one logger call outside loops), sympy affine form of the hedge probabilities, guard check of the hedge reward (def-use closure from GP predictions), mesh-size coherence dataflow for the search mesh, provenance of the ranked values, CFG check that the survivor selection is on every path of a generation, helper purity",
         text="Decides ascending argsort with index 0 / argmin on the same array, lock-step accumulation of candidates and values, acquisition evaluated on filtered rows only, one target call per search step outside any loop, and hedge probabilities affine in a normalised vector with a + n*b = 1, b = gamma, a >= 0, hedge rewards finite (GP-predicted quantities only under isfinite guards), search-mesh slots current where read. The rank-selection mask combinatorics are not decided.",
         note="Trusted: np.argsort ascending; ini constants gamma=0.125, n=2.",
         ref="4/C18",
     ),
     "C19": dict(
-        technique="static analysis: store-group (incumbent tuple) coherence, record-block index agreement, deep-copy setter check, result source table, must-definition dataflow of the result fields over exceptional edges",
+        technique="static analysis: store-group (incumbent tuple) coherence, record-block index agreement, deep-copy setter check, result source table, must-definition dataflow of the result fields over exceptional edges, may-alias analysis of the stored x0",
         text="Decides that value/estimate/SD and the point the next iteration reads move together from the same history index, that one record block with one index records each iteration with x = inverse(u), that history/result setters deep-copy and reject unknown keys, that result fields read their designated state locations, and that the field set is the same on every path.",
         note="Trusted: copy.deepcopy semantics.",
         ref="4/C19",
     ),
     "C20": dict(
-        technique="static analysis: guard/dominance analysis of the options loader, ini reader, who-may-write options table, alias + in-place store analysis",
+        technique="static analysis: guard/dominance analysis of the options loader, ini reader, who-may-write options table, alias + in-place store analysis, key-identity check of the options container",
         text="Decides that loader writes are guarded by the protected-names set filled before the second file loads, name validation post-dominates loading, evaluation parameters are exec'd before every eval loop with no deferred use, every store into options outside the loader is a classified site, and no in-place store goes through an alias of a caller array or the caller's dict.",
         note="Known finding (recorded): in-place write into the caller's plausible bounds on the multi-row-x0 path.",
         ref="4/C20",
